@@ -5,6 +5,7 @@ import OW.Proofs.RealNum
 import OW.Proofs.Lag
 import OW.Proofs.Lits
 import OW.Proofs.StorageRouting
+import OW.Proofs.StorageRoutingStall
 import OW.Proofs.Muskingum
 import OW.Props.C18
 import Mathlib.Tactic.Linarith
@@ -413,15 +414,18 @@ theorem sq_relation (hd : 0 < dur) (q : ℝ) (hq : 0 ≤ q) (hrp : rp ≤ 1) :
     rw [abs_of_nonneg h1, abs_of_nonneg (by linarith)]
     linarith
 
-/- FULL STATEMENT (not proved): on the `root` exit FindRoot always returns through its tolerance test, i.e.
+/- FULL STATEMENT: on the `root` exit FindRoot always returns through its tolerance test, i.e.
    `|residual(q)| < massBalanceLimit` for the returned index flow, for all parameters of the region and all inputs.
-   What is proved instead: -/
+   THIS IS FALSE for the code (exact arithmetic AND the real float code): `root_not_converged_counterexample` below.
+   What the algorithm supports without further hypotheses is `root_exit_unconditional` / `root_residual_le_ends_zero_bias`;
+   what is proved under a sufficient-budget hypothesis is: -/
 /-- **root_converges_partial.** On the root-finder path the returned residual is below `massBalanceLimit` whenever interval
 halving alone suffices within the 20 iterations: residual function non-decreasing and `L`-Lipschitz on `[minQI, maxQI]`
 with `L·(maxQI − minQI)/2²⁰ < massBalanceLimit`.
-MISSING for the full statement: a proof that the secant/Newton trials make the 20 iterations suffice when `L·width/2²⁰` is
-larger (for `m < 1` the slope `k·m·q^(m−1)` of the residual is unbounded near `q = 0`, so no uniform `L` exists); on the real
-code the oracle found no unconverged step in 6·10⁵ generated steps after the `convergenceLimit = 0` repair. -/
+The full statement (no Lipschitz/budget hypothesis) is FALSE: for `m < 1` the slope `k·m·q^(m−1)` of the residual is unbounded near
+`q = 0`, and for small routing powers the halving + secant + Newton trials do not reach the root in 20 iterations
+(`root_not_converged_counterexample`: m = 0.05, proved; on the real code unconverged steps appear for m ≲ 0.15, none found for
+m ≥ 0.2 in 8·10⁴ random single steps). -/
 theorem root_converges_partial (c : Ctx ℝ) (minQI mx L : ℝ) (hle : minQI ≤ mx)
     (h1 : (rr c minQI).massBalance ≤ 0) (h2 : 0 ≤ (rr c mx).massBalance)
     (hmono : MonotoneOn (massBalanceFn c) (Set.Icc minQI mx))
@@ -436,6 +440,175 @@ theorem root_converges_partial (c : Ctx ℝ) (minQI mx L : ℝ) (hle : minQI ≤
   have := C18.tolerance_reached hmono hlip (le_of_eq conv_eq) hle f1 f2 hx0 (by unfold maxIterations; norm_num) hbudget hfr
   rw [C18.result_delta_is_value hle f1 f2 hx0 hfr, massBalanceFn_real] at this
   exact this
+
+/-- **root_exit_unconditional.** What the root search of `calcOutflow` guarantees for EVERY context `c` (any parameters, any
+function shape — no monotonicity, no Lipschitz bound), given only the bracket `residual(minQI) ≤ 0 ≤ residual(maxQI)` under which
+`calcOutflow` calls it: the returned index flow lies in `[minQI, maxQI]` and `delta` is its residual; the final bracket is
+nested in the initial one with `residual(min) ≤ 0 ≤ residual(max)` (maintained by every trial kind: halving, secant, Newton);
+the convergence-in-x exit is never taken (`convergenceLimit = 0`); the tolerance exit means `|residual| < massBalanceLimit`; and
+if the 20 iterations run out, the final bracket is at most `(maxQI − minQI)/2²⁰` wide and the returned residual is no larger in
+magnitude than the residual at either end of that final bracket. -/
+theorem root_exit_unconditional (c : Ctx ℝ) (minQI mx : ℝ) (hle : minQI ≤ mx)
+    (h1 : (rr c minQI).massBalance ≤ 0) (h2 : 0 ≤ (rr c mx).massBalance) {fr : Res ℝ}
+    (hfr : findRoot (massBalanceFn c) (some (slopeOfMassBalance c)) minQI minQI mx massBalanceLimit convergenceLimit
+      maxIterations = .ok fr) :
+    (minQI ≤ fr.x ∧ fr.x ≤ mx) ∧ fr.delta = (rr c fr.x).massBalance ∧
+    (minQI ≤ fr.b.minX ∧ fr.b.minX ≤ fr.b.maxX ∧ fr.b.maxX ≤ mx ∧
+      (rr c fr.b.minX).massBalance ≤ 0 ∧ 0 ≤ (rr c fr.b.maxX).massBalance) ∧
+    fr.exit ≠ .conv ∧
+    (fr.exit = .tol → |(rr c fr.x).massBalance| < massBalanceLimit) ∧
+    (fr.exit = .fuel → fr.b.maxX - fr.b.minX ≤ (mx - minQI) / 2 ^ 20 ∧
+      |(rr c fr.x).massBalance| ≤ |(rr c fr.b.minX).massBalance| ∧
+      |(rr c fr.x).massBalance| ≤ (rr c fr.b.maxX).massBalance) := by
+  have f1 : massBalanceFn c minQI ≤ 0 := by rw [massBalanceFn_real]; exact h1
+  have f2 : 0 ≤ massBalanceFn c mx := by rw [massBalanceFn_real]; exact h2
+  have hx0 : minQI ≤ minQI ∧ minQI ≤ mx := ⟨le_refl _, hle⟩
+  have hval := C18.result_delta_is_value hle f1 f2 hx0 hfr
+  rw [massBalanceFn_real] at hval
+  obtain ⟨b1, b2, b3, _, _, b6, b7⟩ := C18.bracket_inv hle f1 f2 hx0 hfr
+  rw [massBalanceFn_real] at b6 b7
+  refine ⟨C18.result_in_interval hle f1 f2 hx0 hfr, hval, ⟨b2, b1, b3, b6, b7⟩,
+    C18.no_conv_exit (le_of_eq conv_eq) hle f1 f2 hx0 hfr, ?_, ?_⟩
+  · intro he
+    have := C18.tol_exit hle f1 f2 hx0 hfr he
+    rwa [hval] at this
+  · intro he
+    have hw := C18.width_halves hle f1 f2 hx0 hfr he
+    have hne : fr.exit ≠ .tol := by rw [he]; intro h; cases h
+    obtain ⟨a, b⟩ := C18.delta_le_final_ends hle f1 f2 hx0 (by unfold maxIterations; norm_num) hfr hne
+    rw [hval, massBalanceFn_real] at a b
+    exact ⟨hw, a, b⟩
+
+/-- the residual function is non-decreasing for zero inflow bias (`bias = 0`, `qlimit = 0`, `koffset = 0` as set by the prologue),
+`k ≥ 0`, `0 ≤ m ≤ 1`, `Δt ≥ 0` -/
+theorem massBalanceFn_mono_zero_bias (c : Ctx ℝ) (hb : c.bias = 0) (hq : c.qlimit = 0) (hko : c.koffset = 0)
+    (hk : 0 ≤ c.routingConstant) (hm0 : 0 ≤ c.routingPower) (hm1 : c.routingPower ≤ 1) (hd : 0 ≤ c.duration) :
+    Monotone (massBalanceFn c) := by
+  have hcb : c.bias < 0.999 := by rw [hb]; norm_num
+  have hS : ∀ q, sIndex c q = if q ≤ 0 then c.deadStorage else c.routingConstant * q ^ c.routingPower + c.deadStorage := by
+    intro q
+    rw [sIndex_eq, hq, hko]
+    by_cases h0 : q ≤ 0
+    · rw [if_pos h0, if_pos h0]
+    · rw [if_neg h0, if_neg h0, if_neg]
+      · ring
+      · rintro (⟨_, h⟩ | ⟨h, _⟩)
+        · exact h0 (le_of_lt h)
+        · linarith
+  intro a b hab
+  rw [massBalanceFn_real, massBalanceFn_real, rr_massBalance c a hcb, rr_massBalance c b hcb, hS a, hS b, hb]
+  have hlin : (a - 0 * (c.inflow + c.lateral)) * c.duration / (1 - 0) ≤ (b - 0 * (c.inflow + c.lateral)) * c.duration / (1 - 0) := by
+    simp only [zero_mul, sub_zero, div_one]
+    exact mul_le_mul_of_nonneg_right hab hd
+  have hSab : (if a ≤ 0 then c.deadStorage else c.routingConstant * a ^ c.routingPower + c.deadStorage)
+      ≤ (if b ≤ 0 then c.deadStorage else c.routingConstant * b ^ c.routingPower + c.deadStorage) := by
+    by_cases ha : a ≤ 0
+    · rw [if_pos ha]
+      by_cases hb0 : b ≤ 0
+      · rw [if_pos hb0]
+      · rw [if_neg hb0]
+        have : 0 ≤ c.routingConstant * b ^ c.routingPower :=
+          mul_nonneg hk (Real.rpow_nonneg (le_of_lt (not_le.mp hb0)) _)
+        linarith
+    · have hb0 : ¬ b ≤ 0 := fun h => ha (le_trans hab h)
+      rw [if_neg ha, if_neg hb0]
+      have := Real.rpow_le_rpow (le_of_lt (not_le.mp ha)) hab hm0
+      have := mul_le_mul_of_nonneg_left this hk
+      linarith
+  linarith
+
+/-- **root_residual_le_ends_zero_bias.** Zero inflow bias, `k ≥ 0`, `0 ≤ m ≤ 1`: with NO hypothesis on slopes or iteration budget,
+the residual returned by the root search is below `massBalanceLimit`, or at most as large in magnitude as the residual at the
+better end of the INITIAL bracket `[minQI, maxQI]` (the search never makes things worse than its starting bracket). -/
+theorem root_residual_le_ends_zero_bias (c : Ctx ℝ) (hb : c.bias = 0) (hq : c.qlimit = 0) (hko : c.koffset = 0)
+    (hk : 0 ≤ c.routingConstant) (hm0 : 0 ≤ c.routingPower) (hm1 : c.routingPower ≤ 1) (hd : 0 ≤ c.duration)
+    (minQI mx : ℝ) (hle : minQI ≤ mx)
+    (h1 : (rr c minQI).massBalance ≤ 0) (h2 : 0 ≤ (rr c mx).massBalance) {fr : Res ℝ}
+    (hfr : findRoot (massBalanceFn c) (some (slopeOfMassBalance c)) minQI minQI mx massBalanceLimit convergenceLimit
+      maxIterations = .ok fr) :
+    |(rr c fr.x).massBalance| ≤ min |(rr c minQI).massBalance| |(rr c mx).massBalance| ∨
+      |(rr c fr.x).massBalance| < massBalanceLimit := by
+  have f1 : massBalanceFn c minQI ≤ 0 := by rw [massBalanceFn_real]; exact h1
+  have f2 : 0 ≤ massBalanceFn c mx := by rw [massBalanceFn_real]; exact h2
+  have hx0 : minQI ≤ minQI ∧ minQI ≤ mx := ⟨le_refl _, hle⟩
+  have hmono : MonotoneOn (massBalanceFn c) (Set.Icc minQI mx) :=
+    (massBalanceFn_mono_zero_bias c hb hq hko hk hm0 hm1 hd).monotoneOn _
+  have := C18.better_end hmono hle f1 f2 hx0 (by unfold maxIterations; norm_num) hfr
+  rw [C18.result_delta_is_value hle f1 f2 hx0 hfr] at this
+  simpa only [massBalanceFn_real] using this
+
+/-- **root_not_converged_counterexample.** "20 iterations always suffice" is FALSE for the code. Zero inflow bias, routing
+constant k = 10⁶, routing power m = 0.05 (inside the property's region k > 0, 0 < m ≤ 1), no evaporation, no dead storage,
+Δt = 86400 s, 1000 m³ in the reach, no inflow, first timestep. In exact arithmetic the root search uses all 20 iterations without
+ever moving its lower end (`OW.Proofs.FindRoot.stalled_findRoot` with the certificate `stall_cert`: every halving, secant and
+Newton trial lands where the residual is ≥ 1000 m³) and `calcOutflow` reports the values of the index flow `q = 0`:
+* the step leaves through the `root` exit with outflow 1000/86400 m³/s and storage 0 — the reach is emptied —
+* the residual of the returned index flow is 1000 m³, a million times `massBalanceLimit`,
+* the storage-discharge relation is not honoured in any sense the tolerance allows: every index flow whose outflow volume is
+  within `massBalanceLimit` of the reported one has an index storage ≥ 999 m³, the reported storage is 0.
+(The solution of the step's equation is q ≈ 10⁻⁶⁰ m³/s: practically all 1000 m³ should stay.) The real code returns the same
+numbers bit for bit (outflow 0.011574074074074073, storage 0; corpus case `C11:StorageRouting` of the K family,
+known finding KF-C11-StorageRouting-unconverged-small-power). -/
+theorem root_not_converged_counterexample :
+    calcOutflow (0:ℝ) 0 0 0 0 1000 0 0 0 86400 0.05 1000000 0 1000000 0 = .ok ⟨0, 1000 / 86400, 0, "root"⟩ ∧
+    |(rr cStall 0).massBalance| = 1000 ∧ (massBalanceLimit : ℝ) < 1000 ∧
+    (∀ q : ℝ, |q - 1000 / 86400| * 86400 ≤ massBalanceLimit → 999 ≤ sIndex cStall q) := by
+  refine ⟨calcOutflow_stall 0, ?_, by rw [mbl_eq]; norm_num, ?_⟩
+  · rw [← massBalanceFn_real, fStall_zero]; norm_num
+  · intro q hq
+    rw [mbl_eq] at hq
+    have h1 : |q - 1000 / 86400| ≤ 1 / 1000 / 86400 := by
+      rw [le_div_iff₀ (by norm_num)]; exact hq
+    obtain ⟨hlo, hhi⟩ := abs_le.mp h1
+    have hq500 : (1:ℝ) / 500 ≤ q := by
+      have : (1:ℝ) / 500 ≤ 1000 / 86400 - 1 / 1000 / 86400 := by norm_num
+      linarith
+    have hf := fStall_ge_of_ge q hq500
+    have hqpos : 0 < q := by linarith
+    rw [fStall_pos q hqpos, ← sIndex_stall_pos q hqpos] at hf
+    have : 86400 * q ≤ 1000 + 1 / 1000 := by
+      have : q ≤ 1000 / 86400 + 1 / 1000 / 86400 := by linarith
+      calc 86400 * q ≤ 86400 * (1000 / 86400 + 1 / 1000 / 86400) := by nlinarith
+        _ = 1000 + 1 / 1000 := by norm_num
+    linarith
+
+/-- the same on the whole kernel: a one-step run of the model from 1000 m³ reports outflow 1000/86400 and storage 0 -/
+theorem run_not_converged_counterexample :
+    ((run (0:ℝ) 1000000 0.05 0 0 86400 1000 [(0, 0, 0, 0)]).2.map fun o => (o.outflow, o.storage, o.tag))
+      = [(1000 / 86400, 0, "root")] := by
+  unfold run
+  have hsu : setup (0:ℝ) 1000000 0.05 86400 = ⟨0, 0.05, 1000000, 0, 0⟩ :=
+    setup_zero_bias 0 1000000 0.05 86400 (by norm_num) (by norm_num)
+  rw [hsu]
+  simp only [scan, step]
+  have e : ((0:ℝ) - 0) / 86400 = 0 := by norm_num
+  rw [e, z0, calcOutflow_stall 0]
+  rfl
+
+/-- non-vacuity of `root_exit_unconditional` / `root_residual_le_ends_zero_bias`, and tightness of the latter: on the context of
+`root_not_converged_counterexample` the hypotheses hold (bracket `[0, 1000/86400]`, residual −1000 at the lower end), the search
+ends by exhausting its iterations, and the returned residual EQUALS the residual at the better end of the initial bracket -/
+example : ∃ fr, findRoot (massBalanceFn cStall) (some (slopeOfMassBalance cStall)) 0 0 (1000 / 86400) massBalanceLimit
+      convergenceLimit maxIterations = .ok fr ∧ fr.exit = .fuel ∧
+      |(rr cStall fr.x).massBalance| = min |(rr cStall 0).massBalance| |(rr cStall (1000 / 86400)).massBalance| := by
+  obtain ⟨fr, hfr, hexit, hx, _⟩ := findRoot_stall
+  refine ⟨fr, hfr, hexit, ?_⟩
+  have h0 : (rr cStall 0).massBalance = -1000 := by rw [← massBalanceFn_real]; exact fStall_zero
+  have h1 : (1000:ℝ) ≤ (rr cStall (1000 / 86400)).massBalance := by
+    rw [← massBalanceFn_real]; exact fStall_ge_of_ge _ (by norm_num)
+  rw [hx, h0, abs_neg, abs_of_pos (by norm_num : (0:ℝ) < 1000), abs_of_nonneg (by linarith), min_eq_left h1]
+
+example : (rr cStall 0).massBalance ≤ 0 ∧ 0 ≤ (rr cStall (1000 / 86400)).massBalance ∧
+    cStall.bias = 0 ∧ cStall.qlimit = 0 ∧ cStall.koffset = 0 ∧ 0 ≤ cStall.routingConstant ∧
+    0 ≤ cStall.routingPower ∧ cStall.routingPower ≤ 1 ∧ 0 ≤ cStall.duration := by
+  have h0 : (rr cStall 0).massBalance = -1000 := by rw [← massBalanceFn_real]; exact fStall_zero
+  have h1 : (1000:ℝ) ≤ (rr cStall (1000 / 86400)).massBalance := by
+    rw [← massBalanceFn_real]; exact fStall_ge_of_ge _ (by norm_num)
+  refine ⟨by rw [h0]; norm_num, by linarith, rfl, rfl, rfl, ?_, ?_, ?_, ?_⟩
+  · show (0:ℝ) ≤ 1000000; norm_num
+  · show (0:ℝ) ≤ 0.05; norm_num
+  · show (0.05:ℝ) ≤ 1; norm_num
+  · show (0:ℝ) ≤ 86400; norm_num
 
 /-! ### the whole run: the balance closes at EVERY timestep -/
 
